@@ -97,8 +97,11 @@ def run(prop, tier):
             ops.append({"op": "create", "key": keyof[c] + ":Symbol/Timeframe/AttributeGroup", "names": ["V"], "types": ["i8"]})
         actors = {}
         for c in CLIENTS:
+            # the write, and IN THE SAME GOROUTINE right after its return a query of the writer's bucket and a search of
+            # the WAL file: "any query that starts after the return sees it" is observed whatever the rest of the play does
             actors[c] = [{"op": "write", "via": "csm", "buckets": [{"key": keyof[c], "cols": [
-                {"name": "Epoch", "type": "i8", "vals": [EPOCH + 60 * int(c[1:])]}, {"name": "V", "type": "i8", "vals": [value_of(c, 1)]}]}]}]
+                {"name": "Epoch", "type": "i8", "vals": [EPOCH + 60 * int(c[1:])]}, {"name": "V", "type": "i8", "vals": [value_of(c, 1)]}]}]},
+                {"op": "query", "dest": keyof[c]}, {"op": "walgrep", "x": {"value": value_of(c, 1)}}]
         sched = to_schedule(beh, keyof, bi)
         ops.append({"op": "play", "x": {"actors": actors, "gated": GATED, "schedule": sched, "timeout_ms": 400,
                                         "background": {"SyncWAL.": "loop", "FlushToWAL.": "loop", "Flush.": "loop"}, "finish": True}})
@@ -120,6 +123,29 @@ def run(prop, tier):
         play = o[1 + len(CLIENTS)]
         if play.get("driver_error") or play.get("panic"):
             raise Undecided("player failed: %s" % str(play)[:300])
+        # ---- whatever happened to the schedule: every writer that returned success must be visible and in the WAL ----
+        for c in CLIENTS:
+            fin = (play.get("finished") or {}).get(c)
+            if not fin or len(fin) < 3:
+                continue
+            wobs, q, g = fin[0], fin[1], fin[2]
+            if wobs.get("panic"):
+                res.violation("writer %s panicked: %s" % (c, str(wobs["panic"])[:300]), replay)
+                continue
+            if wobs.get("err"):
+                continue
+            vis = any(col["name"] == "V" and value_of(c, 1) in col["vals"] for k, cols in (q.get("result") or {}).items() for col in cols) if not q.get("err") else False
+            inwal = bool(g.get("found"))
+            if vis and inwal:
+                continue
+            passed = (play.get("passed") or {}).get(c) or []
+            what = "writer %s returned success but the query it issued right after the return %s its row and its record is %s the WAL file" % (
+                c, "sees" if vis else "does not see", "in" if inwal else "not in")
+            if "RequestFlush.early" in passed and "EarlyReturn" in known:
+                res.known_finding(known["EarlyReturn"], {"schedule": [(s_["actor"], s_["until"]) for s_ in sched][:14], "writer": c, "path": "RequestFlush.early"})
+            else:
+                res.violation(what + " (hook points passed by the writer: %s; schedule %s%s)" % (
+                    passed, [(s_["actor"], s_["until"]) for s_ in sched][:16], ", not followed by the code: " + play["drift"] if play["drift"] else ""), replay)
         if play["drift"]:
             drifts += 1
             res.cov.setdefault("drift_examples", [])
@@ -161,7 +187,7 @@ def run(prop, tier):
         res.sample({"schedule": [(s["actor"], s["until"]) for s in sched]}, limit=2)
     res.cov["schedules_played"] = played
     res.cov["schedules_infeasible_on_real_code"] = drifts
-    if played < max(3, len(meta) // 3):
+    if played < max(3, len(meta) // 3) and not res.violations:
         raise Undecided("only %d of %d schedules could be forced on the real code (drift): %s" % (played, len(meta), res.cov.get("drift_examples")))
     res.assumptions += ["'all interleavings' on the real code = all interleavings of the hook points; timer flushes are explored in the model (WithTick) "
                         "but not forced on the code (tickers cannot be triggered); durability is observed as 'record bytes are in the WAL file at return' "
